@@ -20,10 +20,10 @@ VARIABLES prog,      \* the program (AST)
 vars == <<prog, q, mach, out, phase>>
 
 \* every legal body of the family, behind a two-stack stream and behind a single stack
-EngineBodies == {p \in AllPS(EFamily, EMaxW) : BodyOK(p) /\ ~UsesBlocks(p)}
+EngineBodies == {p \in AllPS(EFamily, EMaxW) : BodyOKF(EFamily, p)}
 \* programs whose meaning involves a hard error or an unbounded closure are left out
-Programs == {q0 \in {Cat(StreamSrc(Max(1, Eff(p).need)), p) : p \in EngineBodies}
-                    \cup {Cat(SingleSrc(Max(1, Eff(p).need)), p) : p \in EngineBodies} :
+Programs == {q0 \in {Cat(StreamSrc(Max(1, Eff(p).need)), Cat(Prefix(EFamily), p)) : p \in EngineBodies}
+                    \cup {Cat(SingleSrc(Max(1, Eff(p).need)), Cat(Prefix(EFamily), p)) : p \in EngineBodies} :
                 ~Run(q0).hard}
 
 Init ==
@@ -63,15 +63,15 @@ Meaning == Run(prog)
 Comparable == ~Meaning.hard /\ ~mach.hard
 
 \* C01/C03/C10: what has been pulled is part of the meaning ...
-OutWithinDen == Comparable => SubBag(Bag(out), Bag(Meaning.out))
+OutWithinDen == Comparable => SubBag(Bag(NormOut(out)), Bag(NormOut(Meaning.out)))
 \* ... and when the engine reports exhaustion, it is all of it
-DoneMeansAll == (Comparable /\ phase = "done") => Bag(out) = Bag(Meaning.out)
+DoneMeansAll == (Comparable /\ phase = "done") => Bag(NormOut(out)) = Bag(NormOut(Meaning.out))
 \* diagnostics are within the documented bounds once everything is pulled
 DiagWithin == (Comparable /\ phase = "done") => (Meaning.lo <= mach.err /\ mach.err <= Meaning.hi)
 \* C01: documented order
 OrderWhereFixed ==
     (Comparable /\ phase = "done" /\ prog.k = "cat" /\ Single(prog.a) /\ OrderFixed(prog.b))
-        => out = Meaning.out
+        => NormOut(out) = NormOut(Meaning.out)
 \* C13: state lifecycle
 Lifecycle == ~mach.bad
 AllDeadAfterDestroy ==
